@@ -317,7 +317,17 @@ class Executor:
             # element of an int8 array, ...); the number itself is exactly representable in it
             p = m.params[op[2]]
             if not isinstance(p, tuple):
-                p.set(_typed(op[3], op[4] if len(op) > 4 else None))
+                if len(op) > 4 and op[4] == "alias":
+                    # an array-valued Parameter: the user hands over a buffer and keeps using it for
+                    # the next scenario (overwrites it in place) WITHOUT calling set() again
+                    import numpy as np
+
+                    buf = np.array(op[3], dtype=float)
+                    p.set(buf)
+                    buf *= 7.0
+                    buf += 1.0
+                else:
+                    p.set(_typed(op[3], op[4] if len(op) > 4 else None))
             sh["pv"][op[2]] = op[3]
         elif k == "vparam_set":
             p = m.params[op[2]]
@@ -477,7 +487,16 @@ class Executor:
             # the reference makes the same observation inside the same user-level `with` block
             rec["ref"]["ops"][-1] = ["with_reclimit", self.cur_reclimit, rec["ref"]["ops"][-1]]
         if k in ("call", "evaluate") and sh["spec"].get("params"):
-            bad = k == "call" and (sh["handles"].get(op[2]) or [None, {}])[1].get("bad_order")
+            hk, ha = (sh["handles"].get(op[2]) or [None, {}]) if k == "call" else (None, {})
+            bad = k == "call" and ha.get("bad_order")
+            if k == "call" and hk in ("grad", "jac", "hess", "symgrad"):
+                # derivatives of an expression holding an ARRAY-valued Parameter: the constants twin
+                # holds an array Constant, which the derivative simplifiers do not accept (they test
+                # constants for == 0 / == 1); only values are compared with the constants model there
+                arrp = {d["name"] for d in sh["spec"].get("params", []) if d["kind"] == "array"}
+                es = ha.get("es") or [ha.get("e")]
+                if arrp and any(S.params_in(sh["spec"]["exprs"][x]) & arrp for x in es if x):
+                    bad = True
             if not bad:  # (a request that deliberately cannot be compiled has no constants twin to agree with)
                 rec["ref2"] = self.ref_ops(op[1], op, as_constants=True)
         if k == "solve" and op[2].get("r2"):
